@@ -395,7 +395,7 @@ def get_first_body_node_loc(body):
         return None
 
     if type(body[0]) in (FunctionDef, ClassDef) and body[0].decorator_list:  # type: ignore[attr-defined]
-        return body[0].decorator_list[0].lineno, body[0].col_offset  # type: ignore[attr-defined]
+        return np(body[0].decorator_list[0])  # type: ignore[attr-defined]
 
     for n in body:
         if n.col_offset >= 0:
